@@ -41,6 +41,7 @@ def run_one(prop, m, jobs=4):
                "--no-evidence", "--no-native", "--jobs", str(jobs)]
         env = dict(os.environ)
         env["PYVC_REPLAY_DIR"] = os.path.join(scratch, "replay")
+        env["PYVC_FAIL_FAST"] = "1"
         p = subprocess.run(cmd, capture_output=True, text=True, cwd=VERIF, timeout=1800, env=env)
         killed = p.returncode == 1 and "VIOLATION" in p.stdout
         failed = [l.strip() for l in p.stdout.splitlines() if l.strip().startswith("failed obligation")]
